@@ -14,9 +14,10 @@ Requests (one per line, S-expressions, see `harness/src/bin/c16.rs` for the prin
   H? ::= - | (h x<hex> <0|1>)
   E ::= (lit V) | (var x) | (add E E) | (lt E E) | (ty E) | (let <x|_> H? E) | (seq E E) | (emit E)
       | (if E E E) | (for ((b <x|_> H?)…) E E) | (call E E…) | (ret E) | (throw E)
-      | (try E ((c <x|_> H E)…) <x|_> E) | (match E (a P E)…)
-  P ::= (pw H?) | (pb x H?) | (pl <int>)
-  F ::= (fun ((x H?)…) H? (plain E)) | (fun ((x H?)…) H? (gen (y E) | (x E) …))
+      | (try E ((c <x|_> H E)…) <x|_> E) | (match (E…) (arm ((P…)…) <-|E> E)…)
+      | (lett ((b <x|_> H?)…) E…) | (letu ((b <x|_> H?)…) E)
+  P ::= (pb <x|_> H?) | (pl <int>) | (pt P…)
+  F ::= (fun (P…) H? (plain E)) | (fun (P…) H? (gen (y E) | (x E) …))
 
 Results: `ok <canon>` | `E:type <xhex message>` | `E:thrown <canon>` | `stuck <n>`;
 canon: `null b0 b1 i<n> f<16 hex> s<xhex> (r a b) (l …) (t …) (m (s<xhex> v)…) (o s<xhex type> (k v)…)
@@ -101,10 +102,10 @@ def parseVarOpt : Sexp → Option (Option Var)
   | .atom "_" => some none
   | x => x.nat?.map some
 
-def parsePat : Sexp → Option Pat
-  | .list [.atom "pw", h] => (parseHintOpt h).map Pat.wild
-  | .list [.atom "pb", x, h] => do pure (.bind (← x.nat?) (← parseHintOpt h))
-  | .list [.atom "pl", n] => n.int?.map Pat.lit
+partial def parsePat : Sexp → Option P
+  | .list [.atom "pb", x, h] => do pure (.b (← parseVarOpt x) (← parseHintOpt h))
+  | .list [.atom "pl", n] => n.int?.map P.lit
+  | .list (.atom "pt" :: ps) => (ps.mapM parsePat).map P.tup
   | _ => none
 
 def parseBinder : Sexp → Option Binder
@@ -118,6 +119,8 @@ partial def parseE : Sexp → Option Expr
   | .list [.atom "lt", a, b] => do pure (.lt (← parseE a) (← parseE b))
   | .list [.atom "ty", e] => (parseE e).map Expr.typeOf
   | .list [.atom "let", x, h, e] => do pure (.letH (← parseVarOpt x) (← parseHintOpt h) (← parseE e))
+  | .list (.atom "lett" :: .list bs :: es) => do pure (.letTemps (← bs.mapM parseBinder) (← es.mapM parseE))
+  | .list [.atom "letu", .list bs, e] => do pure (.letUnpack (← bs.mapM parseBinder) (← parseE e))
   | .list [.atom "seq", a, b] => do pure (.seq (← parseE a) (← parseE b))
   | .list [.atom "emit", e] => (parseE e).map Expr.emit
   | .list [.atom "if", c, t, e] => do pure (.ite (← parseE c) (← parseE t) (← parseE e))
@@ -131,18 +134,23 @@ partial def parseE : Sexp → Option Expr
       | .list [.atom "c", y, h, b] => do pure (CatchArm.mk (← parseVarOpt y) (← parseHint h) (← parseE b))
       | _ => none)
     pure (.tryC (← parseE body) typed (← parseVarOpt x) (← parseE final))
-  | .list (.atom "match" :: scrut :: arms) => do
+  | .list (.atom "match" :: .list scruts :: arms) => do
     let arms ← arms.mapM (fun (a : Sexp) => match a with
-      | .list [.atom "a", p, b] => do pure (Arm.mk (← parsePat p) (← parseE b))
+      | .list [.atom "arm", .list alts, g, b] => do
+        let alts ← alts.mapM (fun (alt : Sexp) => match alt with
+          | .list ps => ps.mapM parsePat
+          | _ => none)
+        let g ← (match g with
+          | .atom "-" => some none
+          | ge => (parseE ge).map some)
+        pure (Arm.mk alts g (← parseE b))
       | _ => none)
-    pure (.matchE (← parseE scrut) arms)
+    pure (.matchE (← scruts.mapM parseE) arms)
   | _ => none
 
 def parseFun : Sexp → Option FunDef
   | .list [.atom "fun", .list ps, out, body] => do
-    let ps ← ps.mapM (fun (p : Sexp) => match p with
-      | .list [x, h] => do pure ((← x.nat?), (← parseHintOpt h))
-      | _ => none)
+    let ps ← ps.mapM parsePat
     let out ← parseHintOpt out
     let body ← (match body with
       | .list [.atom "plain", e] => (parseE e).map Body.plain
